@@ -1022,14 +1022,14 @@ def run(ctx):
         for firsts in hist.split(nf, ctx.pick(1, 2)):
             jobs.append({"spec": name, "mode": "exh", "alphabet": "full", "maxlen": full_len, "firsts": firsts})
         for chunk in range(ctx.pick(3, 8)):
-            jobs.append({"spec": name, "mode": "rnd", "chunk": chunk, "nseq": ctx.pick(1000, 2500), "maxlen": 40})
+            jobs.append({"spec": name, "mode": "rnd", "chunk": chunk, "nseq": ctx.pick(600, 2500), "maxlen": 40})
         ctx.extra.setdefault("alphabet_sizes", {})[name] = {"core": nc, "full": nf}
     ctx.exhaustive = False
     ctx.extra["exhaustive_part"] = "all sequences of length <= %d over the core alphabets and <= %d over the full " \
                                    "alphabets (sequences are not extended past a divergence)" % (core_len, full_len)
     ctx.shard(jobs, timeout=ctx.pick(120, 500))
     ctx.floor("exhaustive_sequences", ctx.pick(6000, 120000))
-    ctx.floor("random_sequences", ctx.pick(12000, 80000) // 2)
+    ctx.floor("random_sequences", ctx.pick(3600, 40000))
     ctx.floor("steps_rejected", ctx.pick(3000, 60000))
     ctx.floor("steps_state_changed", ctx.pick(10000, 200000))
     ctx.floor("distinct_nontrivial", ctx.pick(5000, 100000))
